@@ -119,8 +119,8 @@ struct Checker
                 return Fail{ mc::fmt( "%s-handle-out-of-range:%s:end-%s", k, !valid_range ? "invalid-range" : en.handle > c.e ? "above-end" : "below-start", db.on_off( c.e ) ),
                              mc::fmt( "found handle 0x%04x is outside the requested range 0x%04x..0x%04x", en.handle, s, c.e ) + io };
             if ( !sv )
-                return Fail{ mc::fmt( "%s-reports-non-service:%s%s", k, a ? kind_name( a->kind ) : "unknown-handle", db.has_include ? ":cfg-with-include" : "" ),
-                             mc::fmt( "handle 0x%04x is not the handle of a service declaration", en.handle ) + io };
+                return Fail{ db.has_include ? mc::fmt( "%s-reports-non-service", k ) : mc::fmt( "%s-reports-non-service:%s", k, a ? kind_name( a->kind ) : "unknown-handle" ),
+                             mc::fmt( "handle 0x%04x (%s) is not the handle of a service declaration", en.handle, a ? kind_name( a->kind ) : "no attribute" ) + io };
             if ( sv->secondary )
                 return Fail{ mc::fmt( "%s-returns-secondary", k ),
                              mc::fmt( "secondary service 0x%04x..0x%04x (uuid %s) reported by primary service discovery", sv->start, sv->end, uuid_of( *sv ).str().c_str() ) + io };
@@ -130,7 +130,7 @@ struct Checker
                 return Fail{ mc::fmt( "%s-wrong-uuid", k ), mc::fmt( "service 0x%04x reported with uuid %s, declared %s", sv->start, en.uuid.str().c_str(), uuid_of( *sv ).str().c_str() ) + io };
             const bool last_service = sv == &db.svcs[ db.n_svcs - 1 ];
             if ( en.end != sv->end && !( last_service && en.end == 0xFFFF ) )
-                return Fail{ mc::fmt( "%s-wrong-group-end:%s", k, sv->has_include ? "service-with-include" : db.has_include ? "cfg-with-include" : "plain" ),
+                return Fail{ mc::fmt( "%s-wrong-group-end:%s", k, sv->has_include ? "service-with-include" : "plain" ),
                              mc::fmt( "service 0x%04x reported with end group handle 0x%04x, declared end is 0x%04x", sv->start, en.end, sv->end ) + io };
             if ( en.handle <= prev )
                 return Fail{ mc::fmt( "%s-not-ascending", k ), mc::fmt( "service 0x%04x follows group end 0x%04x", en.handle, prev ) + io };
@@ -206,6 +206,14 @@ struct Checker
     }
 };
 
+// Every signature raised on a server with include_service names that fact: the handle table of such a server is already
+// inconsistent (C04) and the discovery results are a consequence of it. Exception: a *secondary* service reported as primary.
+std::string final_sig( const Db& db, const std::string& sig )
+{
+    if ( !db.has_include || sig.find( "-with-include" ) != std::string::npos || sig.find( "-returns-secondary" ) != std::string::npos ) return sig;
+    return sig + ":cfg-with-include";
+}
+
 bool parse_case( const std::string& l, Case& c )
 {
     unsigned kind, s, e, mtu; char v[ 64 ] = "";
@@ -239,8 +247,8 @@ int main( int argc, char** argv )
             printf( "replaying %s\n", ck.case_text( c ).c_str() );
             for ( auto& f : ck.eval( c ) )
             {
-                printf( "  FAIL %s: %s\n", f.sig.c_str(), f.detail.c_str() );
-                if ( f.sig == rf.sig ) { printf( "REPRODUCED %s\n", rf.sig.c_str() ); rc = 1; }
+                printf( "  FAIL %s: %s\n", final_sig( ck.db, f.sig ).c_str(), f.detail.c_str() );
+                if ( final_sig( ck.db, f.sig ) == rf.sig ) { printf( "REPRODUCED %s\n", rf.sig.c_str() ); rc = 1; }
             }
         }
         if ( !rc ) printf( "not reproduced\n" );
@@ -285,7 +293,7 @@ int main( int argc, char** argv )
                         auto fails = ck.eval( c, &outcome );
                         ++rep.evaluations; ++n;
                         rep.cls( ck.req_class( c ) + "->" + outcome );
-                        for ( auto& f : fails ) rep.fail( f.sig, ck.case_text( c ) + ": " + f.detail, { ck.case_line( c ) } );
+                        for ( auto& f : fails ) rep.fail( final_sig( db, f.sig ), ck.case_text( c ) + ": " + f.detail, { ck.case_line( c ) } );
                         if ( ( n % 4999 ) == 1 && fails.empty() && c.s && c.s <= c.e ) rep.sample( ck.case_text( c ) + " => " + ck.cl.out_hex().substr( 0, 60 ), 8 );
                     }
                     if ( a.expired() ) { cut = true; break; }
@@ -304,7 +312,7 @@ int main( int argc, char** argv )
         for ( int k = 0; k != 2 && ok; ++k )
         {
             bool hit = false;
-            for ( auto& f : ck.eval( c ) ) hit = hit || f.sig == v.first;
+            for ( auto& f : ck.eval( c ) ) hit = hit || final_sig( db, f.sig ) == v.first;
             ok = hit;
         }
         if ( !ok ) { fprintf( stderr, "NONDETERMINISM: %s not reproduced\n", v.first.c_str() ); return 2; }
